@@ -3,7 +3,8 @@ Theorems: props/C17.v. Correspondence: model Sutoton.convert vs sutoton::convert
 concatenations (every row of the regenerated table, overlapping words), user definitions, ASCII MML, strings,
 comments, random Unicode, unterminated strings/comments.
 Oracles on the implementation's output: (a) the extracted specification (RewriteSpec.longest_match / translit /
-rewrite / define / strip_right) on vocabulary concatenations, definitions and verbatim blocks; (b) ASCII identity
+rewrite / define / definition_residue / strip_right) on vocabulary concatenations, definitions (a definition is removed,
+its line breaks stay) and verbatim blocks; (b) ASCII identity
 (up to trailing white space: convert ends with trim_end); (c) a Japanese
 source and its transliteration compile to the same bytes and log; (d) the width map for code points."""
 import json, os, re
@@ -12,13 +13,15 @@ import vlib, mmlgen
 COQ_TARGET = "props/C17.v"
 THEOREMS = ["C17_sorted_invariant", "C17_longest", "C17_zen2han", "C17_zen2han_is_width_map", "C17_table_no_ascii",
             "C17_ascii_identity", "C17_strings_comments_verbatim", "C17_unterminated", "C17_hash_comment_refuted", "C17_user_defs",
+            "C17_user_defs_one_line", "C17_definition_keeps_line_count", "C17_read_definition_lines",
             "C17_homomorphism_general", "C17_homomorphism", "C17_same_mml", "C17_total"]
 DRIVERS = ["sutoton"]
 RULE = ("readings = 1..14 pieces, each a row of the regenerated vocabulary (every row occurs in every tier, every pair "
         "word/extension occurs) or a single character (ASCII MML, full-width forms, wide spaces, kana outside the "
         "vocabulary); chains of such texts with ~{name}={mml} definitions (new words, redefinitions, extensions and "
-        "prefixes of vocabulary words, empty names, all spacing variants) and closed strings/comments with arbitrary "
-        "content; generated ASCII MML programs; junk text with unterminated strings/comments and malformed definitions; "
+        "prefixes of vocabulary words, empty names, all spacing variants, line breaks inside name and value and inside "
+        "/* */ comments between the parts) and malformed definitions (no '{' after the marker, a name without a value, an empty "
+        "name - each with line breaks in what is read over) and closed strings/comments with arbitrary content; generated ASCII MML programs; junk text with unterminated strings/comments and malformed definitions; "
         "random Unicode; code points through |c| and c alone (all scalar values in the thorough tier). non-trivial = "
         "distinct text with at least two vocabulary words or one word plus a definition/verbatim block")
 TRUSTED = ["slice::sort_by is stable (the model's insertion sort is proved to be THE stable sort by descending byte length)",
@@ -31,8 +34,13 @@ ASCII_PLAIN = list("cdefgabrlovqt0123456789.^+-#*,()[]':;|<>@!=`\" \n\t") + ["c"
 WIDE = list("ＣｄｅＡ３８＃（）＋－＝　 ​﻿［］＞＜＠")
 KANA_OUT = list("あかさアカ猫ラテリズ改音方向")      # characters that are not words on their own
 DEF_NAMES = ["あ", "じゅー", "ぴ", "か", "猫", "abc", "x", "Do", "ド", "テンポ", "ドド", "テンポ改改", "テン", "ビブ", "方向", "ト", "トラ",
-             "ー", "a b", "音", "ファ", "ッ", "c", "#", "12", "あ\nい", " ", " あ ", "\t", "　"]
-DEF_VALUES = ["c", "l8", "", "o5c", "d e", "ド", "a{b}c", "\nc", "v100", "Track=2", "'ceg'", "x;", "[4 c]", "{x}", "r", "あ"]
+             "ー", "a b", "音", "ファ", "ッ", "c", "#", "12", "あ\nい", " ", " あ ", "\t", "　",
+             "x\ny", "\nあ", "い\n", "\n", "あ\n\nい", "ド\r\nレ"]
+DEF_VALUES = ["c", "l8", "", "o5c", "d e", "ド", "a{b}c", "\nc", "v100", "Track=2", "'ceg'", "x;", "[4 c]", "{x}", "r", "あ",
+              "c\nd", "c\n\nd", "l8\n", "\n", "{c\n}d", "c\r\nd", "\n\n\n"]
+# what may stand between the parts of a definition (skip_space: blanks, tabs, /* */ comments - line breaks only inside comments)
+DEF_GAPS = ["", "", "", " ", "\t", "  ", "/* x */", "/*\n*/", " /* a\n\nb */ ", "/**/", "/*\n*/ /*\n*/", " /*\r\n*/\t"]
+STOPPERS = ["c", "ド", "|", "\n", "4", "あ", "\r", ")"]
 
 
 def load_table():
@@ -120,12 +128,31 @@ def gen_def(rng, wellformed=True):
     name = rng.choice(DEF_NAMES) if rng.random() < 0.85 else ""
     value = rng.choice(DEF_VALUES)
     tilde = rng.choice(["~", "~", "~", "～", "‾"])
+    if rng.random() < 0.45:
+        g = [rng.choice(DEF_GAPS) for _ in range(3)]
+        eq = "=" if rng.random() < 0.8 else ""
+        return name, value, "%s%s{%s}%s%s%s{%s}" % (tilde, g[0], name, g[1], eq, g[2], value)
     form = rng.choice(["%s{%s}={%s}", "%s{%s}={%s}", "%s {%s} = {%s}", "%s\t{%s}{%s}", "%s{%s}=/* x */{%s}", "%s /*y*/ {%s}  =\t{%s}"])
     return name, value, form % (tilde, name, value)
 
 
+def gen_malformed(rng):
+    """the text a malformed definition reads over (complete: whatever follows it is not read), and whether a stopper has to follow"""
+    tilde = rng.choice(["~", "~", "~", "～", "‾"])
+    g = [rng.choice(DEF_GAPS) for _ in range(3)]
+    k = rng.choice(["bare", "bare", "novalue", "novalue", "emptyname"])
+    if k == "bare":                  # no '{' after the marker
+        return tilde + g[0], True
+    name = rng.choice([n for n in DEF_NAMES if "{" not in n and "}" not in n])
+    if k == "novalue":               # a name, then no '{': nothing is defined
+        return "%s%s{%s}%s%s%s" % (tilde, g[0], name, g[1], rng.choice(["=", "=", ""]), g[2]), True
+    value = rng.choice([v for v in DEF_VALUES if v.count("{") == v.count("}") and not v.startswith("}")])
+    return "%s%s{}%s%s%s{%s}" % (tilde, g[0], g[1], rng.choice(["=", "=", ""]), g[2], value), False
+
+
 def gen_chain(rng, rows):
-    """segments (kind, payload, text): b = special-free text, d = definition, v = closed string/comment"""
+    """segments (kind, payload, text): b = special-free text, d = definition (name, value, its text), m = the text a malformed
+    definition reads over, v = closed string/comment"""
     segs = []
     for _ in range(rng.choice([1, 2, 3, 4, 6])):
         k = rng.random()
@@ -135,11 +162,20 @@ def gen_chain(rng, rows):
             t = pieces_src(ps) + extra + (pieces_src(gen_reading(rng, rows, 1)) if rng.random() < 0.5 else "")
             t = "".join(c for c in t if c not in SPECIAL)
             segs.append(("b", t, t))
-        elif k < 0.75:
+        elif k < 0.7:
             n, v, txt = gen_def(rng)
-            if any(c in SPECIAL or c in "{}" for c in n) or v.count("{") != v.count("}"):
+            if any(c in SPECIAL or c in "{}" for c in n) or v.count("{") != v.count("}") or v.startswith("}"):
                 continue
-            segs.append(("d", (n, v), txt))
+            if not n:
+                segs.append(("m", txt, txt))          # an empty name defines nothing
+            else:
+                segs.append(("d", (n, v, txt), txt))
+        elif k < 0.8:
+            txt, need_stop = gen_malformed(rng)
+            segs.append(("m", txt, txt))
+            if need_stop:                             # the reading stops at the first character that is no blank, comment, '=' or '{'
+                t = rng.choice(STOPPERS) + "".join(c for c in pieces_src(gen_reading(rng, rows, rng.choice([1, 2]))) if c not in SPECIAL)
+                segs.append(("b", t, t))
         else:
             blk = closed_block(rng, rows)
             segs.append(("v", blk, blk))
@@ -157,7 +193,7 @@ def enc_chain(segs):
     out = []
     for k, p, _ in segs:
         if k == "d":
-            out.append("d:%s:%s" % (vlib.enc_text(p[0]), vlib.enc_text(p[1])))
+            out.append("d:%s:%s:%s" % (vlib.enc_text(p[0]), vlib.enc_text(p[1]), vlib.enc_text(p[2])))
         else:
             out.append("%s:%s" % (k, vlib.enc_text(p)))
     return "\t".join(out)
@@ -321,7 +357,8 @@ def run(ctx):
     # the ENTRY POINTS apply the conversion: compile(src) is lex + exec + generate of convert(src), also for sources that are
     # pure ASCII apart from their own definitions
     ascii_defs = ["~{kick}={n36,}~{snare}={n38,} l8 kick snare kick kick snare", "~{Do}={c}~{Re}={d}~{Mi}={e} o5 l4 Do Re Mi Do",
-                  "~{x}={c4} x x ~{x}={d8} x", "l4 ~{zz}={e} c zz d"]
+                  "~{x}={c4} x x ~{x}={d8} x", "l4 ~{zz}={e} c zz d",
+                  "~{kick}={n36,\n}\n~{sn\nare}={n38,} l8 kick sn\nare kick", "~ /*\n\n*/ {Do} = /*\n*/ {c\n}\nl4 Do d Do ~{}={\n} e ~ \n f"]
     pick = [i for i in range(len(srcs)) if want[i] is not None and got[i] is not None and "\x00" not in srcs[i]][: (250 if quick else 8000)]
     esrc = [srcs[i] for i in pick] + ascii_defs
     conv = [dec(got[i]) for i in pick] + [dec(g) for g in R.convert_pairs(ascii_defs, "chains")]
